@@ -5,9 +5,6 @@ open SamVerif.Incremental
 #print axioms affected_exact
 #print axioms affected_covers
 #print axioms affected_forward_closed
-#print axioms rename_unwrap_never_fires
 #print axioms sources_follow_files
-#print axioms incremental_refines_fresh_partial
-#print axioms incremental_refines_fresh_counterexample_rename
-#print axioms incremental_refines_fresh_counterexample_parse
-#print axioms incremental_refines_fresh_counterexample_root
+#print axioms incremental_refines_fresh
+#print axioms no_diagnostics_for_non_files
